@@ -67,6 +67,7 @@ type realm struct {
 
 	// Session meta-procedure registration ID -> handler map.
 	metaProcMap map[wamp.ID]func(*wamp.Invocation) wamp.Message
+	metaStop    chan struct{}
 	metaDone    chan struct{}
 
 	closed    bool
@@ -119,6 +120,7 @@ func newRealm(config *RealmConfig, broker *broker, dealer *dealer, logger stdlog
 		actionChan:  make(chan func()),
 		stopped:     make(chan struct{}),
 		metaIDGen:   new(wamp.IDGen),
+		metaStop:    make(chan struct{}),
 		metaDone:    make(chan struct{}),
 		metaProcMap: make(map[wamp.ID]func(*wamp.Invocation) wamp.Message, 9),
 		log:         logger,
@@ -305,6 +307,18 @@ func (r *realm) createMetaSession() {
 		_, _, err := r.handleInboundMessages(r.metaSess)
 		if err != nil {
 			r.log.Println("meta session handler should never return error, got:", err)
+		}
+		// The meta session has ended. Tell metaProcedureHandler to stop, in
+		// case GOODBYE could not be queued for it, and until it has stopped
+		// discard what it still sends, so that it cannot block on a session
+		// that no longer reads.
+		close(r.metaStop)
+		for {
+			select {
+			case <-r.metaSess.Recv():
+			case <-r.metaDone:
+				return
+			}
 		}
 	}()
 	if r.debug {
@@ -770,7 +784,13 @@ func (r *realm) registerMetaProcedure(procedure wamp.URI, f func(*wamp.Invocatio
 func (r *realm) metaProcedureHandler() {
 	defer close(r.metaDone)
 	var rsp wamp.Message
-	for msg := range r.metaPeer.Recv() {
+	for {
+		var msg wamp.Message
+		select {
+		case msg = <-r.metaPeer.Recv():
+		case <-r.metaStop:
+			return
+		}
 		switch msg := msg.(type) {
 		case *wamp.Invocation:
 			metaProcHandler, ok := r.metaProcMap[msg.Registration]
